@@ -63,6 +63,23 @@ NEEDS = {
  "C19-2b": ("C19", "sub-agent round 2", "step floor 1e-4 applied after the cap: with max_step_size < 1e-4 (or 0) moves exceed the maximum from loop 2 on"),
  "C20-2a": ("C20", "sub-agent round 2", "convergence threshold scaled by max(1,|score|): runs whose score exceeds 1 in magnitude end early although loops improved by more than the threshold"),
  "C20-2b": ("C20", "sub-agent round 2", "an svg::save error is logged instead of propagated: exit 0 with only the .json when the .svg path is not writable"),
+ "C01-3": ("C01", "sub-agent round 3", "number of image shells computed as ceil(x - 1.5e-8*x): one shell short when 2R/height is within 1.5e-8 (relative) above a whole number; a far image in the line of the cell vector then overlaps by <= 1e-8 unnoticed (relative measure ~1e-20 of the uniform domain)"),
+ "C02-3": ("C02", "sub-agent round 3", "from_radial merges collinear consecutive edges while area() still assumes equally spaced radial points: wrong area only for radial polygons with a point exactly on the chord of its neighbours"),
+ "C04-3": ("C04", "sub-agent round 3", "Cartesian coordinates below 1e-13 (absolute) cleared to 0 in Cell2::to_cartesian: the map is no longer scale invariant; visible only for shapes/cells of size <~ 1e-6 or coordinates within 1e-13 of an axis (also changes Cell2 geometry: C14)"),
+ "C05-3": ("C05", "sub-agent round 3", "reset_value goes through the clamp of the limits: a value that starts outside its limits (tiny shapes: cell length below its lower limit) is put back on the limit after a rejection, the reference score then belongs to no visited state"),
+ "C06-3": ("C06", "sub-agent round 3", "moves drawn among the non-fixed handles, undo applied to basis[choice] instead of basis[free[choice]]: identity unless a non-trailing parameter has min >= max (fixed parameter)"),
+ "C07-3": ("C07", "sub-agent round 3", "proposals worse by more than 20 kT rejected without looking at the draw: differs from the rule only when the acceptance draw is below exp(-20) = 2e-9"),
+ "C09-3": ("C09", "sub-agent round 3", "best replica via rayon fold + reduce whose tie-breaking disagrees (fold keeps first, reduce keeps last of equal scores): output depends on the split tree only when >= 2 replicas have exactly equal best scores but different parameters"),
+ "C10-3": ("C10", "sub-agent round 3", "quick stage shortened to (1<<22)/replications steps when replications > 4194: replica k of a larger run is no longer the replica k of a smaller run; visible only for --replications >= 4195 (quick ladder stops at 144, thorough at 6765)"),
+ "C03-3": ("C03", "sub-agent round 3", "lattice energy summed for the first copy of each site only and multiplied by the multiplicity: exact when the operations are symmetries of the crystal; wrong for mirror/glide groups in a cell whose angle left 90 degrees (states built from public fields / JSON); also shifts the truncation set for uncut circles in p2mg/p2gg"),
+ "C11-3": ("C11", "sub-agent round 3", "output files opened without truncation: a shorter result written over a longer earlier one keeps the old tail (JSON unreadable, SVG with extra placements); only the CLI with a pre-existing outfile"),
+ "C12-3": ("C12", "sub-agent round 3", "end tolerance of the segment test divided by sin(angle between the segments), up to 1e-6: corner-to-corner copies with one side continuing the other at an angle of 1e-12..1e-4 answer YES at separations up to 1e-6 side lengths (~1e-20 of placement space). patch.diff is rebased on fix 1cf434c"),
+ "C13-3": ("C13", "sub-agent round 3", "'same species' fast path: sigma/epsilon agreeing within 1e-8 relative use self's own values instead of the mixed ones: E(a,b) != E(b,a) by up to 1.5e-7 relative only for species differing by 1e-10..1e-8"),
+ "C14-3": ("C14", "sub-agent round 3", "per-thread memo of sin/cos of the last cell angle reused within 1e-8 rad: map and images of a cell use the previous cell's angle when the previous call on the same thread had an angle closer than 1e-8"),
+ "C15-3": ("C15", "sub-agent round 3", "site angle folded with rem_euclid(2 pi / num_rotations): identity for num_rotations = 1 (everything the constructors and the CLI build); wrong linear parts for a site with the public field num_rotations >= 2 and an angle beyond 2 pi / n"),
+ "C16-3": ("C16", "sub-agent round 3", "per-thread cache of parsed general positions keyed by group name, validated with zip (a prefix matches): a user-built group with a built-in name and a truncated listing parsed first on the same thread makes the later built-in read return the short table"),
+ "C17-3": ("C17", "sub-agent round 3", "character loop zipped with a u8 column counter: arithmetic overflow panic on the 255th character of one component (builds with overflow checks: debug, and the harness profile); needs ~250 optional blanks"),
+ "C18-3": ("C18", "sub-agent round 3", "cooling factor stored as 1 - (1 - f): rounded to a multiple of 1.1e-16, so +-11% at f ~ 5e-16 and exactly 0 below 5.5e-17; needs kt_finish/kt_start below ~1e-14 per loop"),
  "orig-C01": ("C01", "revert of fix 1743f8c/a3224f8", "original defect: shell count 1..3 from cell aspect/angle"),
  "orig-C02": ("C02", "revert of fix 9c7cce3", "original defect: pairwise inclusion-exclusion area"),
  "orig-C03": ("C03", "revert of fix 69365b2", "original defect: periodic pairs weighted twice"),
